@@ -134,11 +134,40 @@ func (p *c08FaultPool) SetBallot(bl base.Ballot) (bool, error) {
 }
 
 type c08Sent struct {
-	Point string
-	SC    bool
-	Fact  string
-	Node  string
+	Point  string
+	SC     bool
+	Fact   string
+	Node   string
+	Height int64
 }
+
+func (s c08Sent) key() string { return fmt.Sprintf("%s/sc=%v", s.Point, s.SC) }
+
+// c08KeepHeights is what the pool's periodic cleaner is specified to keep (TempPool defaults cleanRemovedBallotDeep =
+// cleanRemovedProposalDeep = 3; the in-tree test "clean" expects the ballot of top-3 to go and the one of top to stay): the
+// records of the newest height in the pool and of the two heights below it; everything at or below top-3 is removed.
+const c08KeepHeights = 3
+
+// cleanerTick is one round of the cleaner daemon of TempPool (hook H4), the same three steps in the same order as
+// TempPool.startClean runs them every 33 minutes.
+func (c *c08World) cleanerTick() (removed int, err error) {
+	if _, err = c.pool.VerifCleanRemovedNewOperations(); err != nil {
+		return 0, err
+	}
+
+	p, err := c.pool.VerifCleanProposals()
+	if err != nil {
+		return 0, err
+	}
+
+	b, err := c.pool.VerifCleanBallots()
+
+	return p + b, err
+}
+
+// c08Tick remembers where in the broadcast log a cleaner round happened: [from,to] are the lengths of the log when the
+// round started and when it was certainly over (equal for a round in a quiescent moment).
+type c08Tick struct{ from, to int }
 
 type c08World struct {
 	w     *bbWorld // reused for ballot construction only (its box is not used)
@@ -173,6 +202,7 @@ func newC08World(n int, state isaacstates.StateType, failAt int) (*c08World, err
 		c.sent = append(c.sent, c08Sent{
 			Point: bl.Point().String(), SC: bbIsSC(bl.SignFact().Fact()),
 			Fact: bl.SignFact().Fact().Hash().String(), Node: bl.SignFact().Node().String(),
+			Height: int64(bl.Point().Height()),
 		})
 		c.mu.Unlock()
 
@@ -203,12 +233,17 @@ func TestC08(t *testing.T) {
 	defer r.Finish()
 	r.Rule("a States in Syncing/Broken (stub current handler, hook H1) with consensus allowed and every sender a sync source; a real DefaultBallotBroadcaster over a real TempPool; " +
 		"each case delivers 2..6 real IsValid ballots of 2..4 remote nodes concurrently to the mimic-ballot function (same stage point with different facts, same fact from different nodes, " +
-		"different stage points, suffrage-confirm vs ordinary) in 1..3 phases; the harness gate holds each delivery right after its pool lookup and releases them in a drawn order; " +
-		"optionally the local node also broadcasts a ballot of its own for one of the points, optionally one of the first pool writes fails (injected storage fault). Oracle: per (stage point, suffrage-confirm flag) the ballots signed by the local node that reached " +
-		"the network function carry at most one fact, and the pool returns that one. non-trivial = >=2 deliveries for one stage point with different facts were inside the window together")
+		"different stage points, older heights, suffrage-confirm vs ordinary) in 1..3 phases (a later phase often returns to the still-open stage point of the previous one); the harness gate holds each delivery right after its pool lookup and releases them in a drawn order; " +
+		"optionally the local node also broadcasts a ballot of its own for one of the points (first-made or re-made with another proposal), optionally one of the first pool writes fails (injected storage fault); " +
+		"action cleanerTick (hook H4: one round of the pool's periodic cleaner daemon) runs between two phases or concurrently with the deliveries of a phase. " +
+		"Oracle: per (stage point, suffrage-confirm flag) the ballots signed by the local node that reached the network function carry at most one fact; a cleaner round starts a new epoch only for the stage points " +
+		"at or below (newest height in the pool - 3), which the cleaner is specified to forget. non-trivial = >=2 deliveries for one stage point with different facts were inside the window together, or a different fact " +
+		"was offered for a stage point inside the kept heights whose ballot was broadcast before a cleaner round")
 	r.Floor(20)
 	r.Assume("the real consensus handlers are not booted: their check-pool-then-broadcast paths are represented by the direct Broadcast of a locally made ballot",
-		"the gate's grace period (30 ms) only affects speed; a serialising implementation passes")
+		"the gate's grace period (30 ms) only affects speed; a serialising implementation passes",
+		"the cleaner daemon's 33 minute ticker is replaced by direct calls of its three steps (hook H4); the pool cleaner is specified to keep the newest 3 heights, so a stage point at or below newest-3 "+
+			"is outside what the node can remember: a second fact there after a cleaner round is not asserted (the network finalised those heights long ago)")
 
 	r.Checks(100, 5000)
 	r.ShrinkTime(20 * time.Second)
@@ -232,20 +267,96 @@ func TestC08(t *testing.T) {
 		var history []string
 
 		conflictInWindow := false
+		conflictAcrossTick := false
+		ticksDone, tickRemoved := 0, 0
+
+		var (
+			ticks    []c08Tick
+			epoch    = map[string]int{}             // key -> index in the broadcast log where the current epoch of the key starts
+			preTick  = map[string]map[string]bool{} // key inside the kept heights at a cleaner round -> facts broadcast before it
+			fh       int64
+			fr       uint64
+			fstage   string
+			ownMade  = map[string]bool{}
+			localStr = c.local.Address().String()
+		)
+
+		snapshot := func() []c08Sent {
+			c.mu.Lock()
+			defer c.mu.Unlock()
+
+			return append([]c08Sent(nil), c.sent...)
+		}
+
+		// afterTick: a cleaner round happened somewhere in sent[from:]; top is the newest height the local node ever put in
+		// the pool (an upper bound of what the cleaner saw). Stage points at or below top-3 start a new epoch at the end of the
+		// log; the others must still be remembered.
+		afterTick := func(from int) {
+			sent := snapshot()
+			ticks = append(ticks, c08Tick{from: from, to: len(sent)})
+
+			top := int64(-1)
+
+			for _, s := range sent {
+				if s.Node == localStr && s.Height > top {
+					top = s.Height
+				}
+			}
+
+			for i, s := range sent {
+				switch {
+				case s.Node != localStr:
+				case s.Height <= top-c08KeepHeights:
+					epoch[s.key()] = len(sent)
+					delete(preTick, s.key())
+				case i >= from: // possibly broadcast after the round
+				default:
+					if preTick[s.key()] == nil {
+						preTick[s.key()] = map[string]bool{}
+					}
+
+					preTick[s.key()][s.Fact] = true
+				}
+			}
+		}
 
 		for ph := 0; ph < phases; ph++ {
+			// ---- action cleanerTick: 0 none, 1 between the phases (quiescent), 2 concurrently with the deliveries of this phase
+			tick := 0
+			if ph > 0 {
+				tick = rapid.SampledFrom([]int{0, 1, 1, 1, 2}).Draw(rt, "cleanerTick")
+			} else {
+				tick = rapid.SampledFrom([]int{0, 0, 0, 2}).Draw(rt, "cleanerTick")
+			}
+
+			if tick == 1 {
+				removed, err := c.cleanerTick()
+				if err != nil {
+					rt.Fatalf("cleaner: %v", err)
+				}
+
+				ticksDone++
+				tickRemoved += removed
+
+				history = append(history, "cleanerTick")
+
+				afterTick(len(snapshot()))
+			}
+
 			k := rapid.IntRange(2, 6).Draw(rt, "deliveries")
 			descs := make([]bbBallotDesc, 0, k)
 
-			// a focus point so that conflicts are common
-			fh := int64(rapid.IntRange(33, 34).Draw(rt, "focusHeight"))
-			fr := uint64(rapid.IntRange(0, 1).Draw(rt, "focusRound"))
-			fstage := rapid.SampledFrom([]string{"init", "accept"}).Draw(rt, "focusStage")
+			// a focus point so that conflicts are common; a later phase mostly stays at the (still open) point of the previous one
+			if ph == 0 || rapid.IntRange(0, 2).Draw(rt, "newFocus") == 0 {
+				fh = int64(rapid.IntRange(33, 34).Draw(rt, "focusHeight"))
+				fr = uint64(rapid.IntRange(0, 1).Draw(rt, "focusRound"))
+				fstage = rapid.SampledFrom([]string{"init", "accept"}).Draw(rt, "focusStage")
+			}
 
 			for i := 0; i < k; i++ {
 				d := bbBallotDesc{Height: fh, Round: fr, ExpelBy: "full", Node: rapid.IntRange(0, n-1).Draw(rt, "node")}
 
-				switch rapid.SampledFrom([]int{0, 1, 2, 3, 4, 5, 6, 6, 6, 7, 8, 9}).Draw(rt, "variant") {
+				switch rapid.SampledFrom([]int{0, 1, 2, 3, 4, 5, 6, 6, 6, 7, 8, 9, 10}).Draw(rt, "variant") {
 				case 0, 1, 2:
 					d.Kind = fstage
 				case 3, 4, 5:
@@ -255,6 +366,11 @@ func TestC08(t *testing.T) {
 					d.Kind = rapid.SampledFrom([]string{"sc", "scX"}).Draw(rt, "scKind")
 				case 7:
 					d.Kind = map[string]string{"init": "initExpel", "accept": "acceptExpel"}[fstage]
+				case 10:
+					// a late ballot of an older height: around the edge of what the cleaner keeps
+					d.Height = int64(rapid.SampledFrom([]int{29, 31, 32}).Draw(rt, "oldHeight"))
+					d.Round = 0
+					d.Kind = rapid.SampledFrom([]string{"init", "initX"}).Draw(rt, "oldKind")
 				default:
 					d.Height = int64(rapid.IntRange(33, 35).Draw(rt, "otherHeight"))
 					d.Kind = rapid.SampledFrom([]string{"init", "accept", "initX"}).Draw(rt, "otherKind")
@@ -285,9 +401,19 @@ func TestC08(t *testing.T) {
 
 			var own base.Ballot
 
+			ownLabel := ""
+
 			if rapid.IntRange(0, 3).Draw(rt, "ownBroadcast") == 0 {
-				// the local node's own ballot for the focus point with a third fact (what a consensus handler would do)
-				f := isaac.NewINITBallotFact(bbPoint(fh, fr), bbBlock(fh-1), gen.H(fmt.Sprintf("own-proposal-%d-%d", fh, fr)), nil)
+				// the local node's own ballot for the focus point with a third fact (what a consensus handler would do); when the
+				// handler makes its ballot for the point once more it may come with another proposal (re-made)
+				ownLabel = fmt.Sprintf("own-proposal-%d-%d", fh, fr)
+				if ownMade[ownLabel] && rapid.Bool().Draw(rt, "ownRemade") {
+					ownLabel += "-remade"
+				}
+
+				ownMade[fmt.Sprintf("own-proposal-%d-%d", fh, fr)] = true
+
+				f := isaac.NewINITBallotFact(bbPoint(fh, fr), bbBlock(fh-1), gen.H(ownLabel), nil)
 
 				var vp base.Voteproof
 				if fr == 0 {
@@ -299,11 +425,26 @@ func TestC08(t *testing.T) {
 				own = isaac.NewINITBallot(vp, gen.SignINIT(f, c.local), nil)
 			}
 
+			// a different fact offered for a stage point inside the kept heights that was broadcast before a cleaner round
+			offered := append([]base.Ballot(nil), bls...)
+			if own != nil {
+				offered = append(offered, own)
+			}
+
+			for _, bl := range offered {
+				k := fmt.Sprintf("%s/sc=%v", bl.Point(), bbIsSC(bl.SignFact().Fact()))
+				if fs := preTick[k]; len(fs) > 0 && !fs[bl.SignFact().Fact().Hash().String()] {
+					conflictAcrossTick = true
+				}
+			}
+
 			c.gate.mu.Lock()
 			c.gate.enabled, c.gate.expected, c.gate.arrived, c.gate.order, c.gate.held = true, len(bls), 0, order, 0
 			c.gate.mu.Unlock()
 
-			history = append(history, fmt.Sprintf("phase %d: deliver %v release-order %v own-broadcast=%v", ph, used, order, own != nil))
+			history = append(history, fmt.Sprintf("phase %d: deliver %v release-order %v own-broadcast=%q concurrent-cleanerTick=%v", ph, used, order, ownLabel, tick == 2))
+
+			phaseStart := len(snapshot())
 
 			var wg sync.WaitGroup
 
@@ -327,7 +468,34 @@ func TestC08(t *testing.T) {
 				}()
 			}
 
+			var (
+				tickErr error
+				tickN   int
+			)
+
+			if tick == 2 {
+				wg.Add(1)
+
+				go func() {
+					defer wg.Done()
+
+					tickN, tickErr = c.cleanerTick()
+				}()
+			}
+
 			wg.Wait()
+
+			if tickErr != nil {
+				rt.Fatalf("cleaner: %v", tickErr)
+			}
+
+			if tick == 2 {
+				ticksDone++
+				tickRemoved += tickN
+
+				// the round ran somewhere inside this phase: the old stage points are not asserted for this phase
+				afterTick(phaseStart)
+			}
 
 			c.gate.mu.Lock()
 			c.gate.enabled = false
@@ -355,42 +523,65 @@ func TestC08(t *testing.T) {
 			}
 
 			// ---- oracle after every phase
-			c.mu.Lock()
-			sent := append([]c08Sent(nil), c.sent...)
-			c.mu.Unlock()
+			sent := snapshot()
 
 			byKey := map[string]map[string]bool{}
+			first := map[string]int{} // key -> index of the first broadcast of the current epoch
+			second := map[string]int{}
 
-			for _, s := range sent {
-				if s.Node != c.local.Address().String() {
+			for i, s := range sent {
+				if s.Node != localStr {
 					continue
 				}
 
-				k := fmt.Sprintf("%s/sc=%v", s.Point, s.SC)
+				k := s.key()
+				if i < epoch[k] {
+					continue
+				}
+
 				if byKey[k] == nil {
 					byKey[k] = map[string]bool{}
+					first[k] = i
+				}
+
+				if !byKey[k][s.Fact] && len(byKey[k]) == 1 {
+					second[k] = i
 				}
 
 				byKey[k][s.Fact] = true
 			}
 
-			for k, fs := range byKey {
-				if len(fs) > 1 {
-					sig := "equivocation-mimic-race"
-					if own != nil {
-						sig = "equivocation-own-vs-mimic"
-					}
-
-					r.Violation(rt, sig, "the local node broadcast %d different ballot facts for %s: %v\n  history:\n    %s\n  broadcast log: %v",
-						len(fs), k, bbSortedKeys(fs), strings.Join(history, "\n    "), sent)
+			for _, k := range bbSortedKeys(byKey) {
+				fs := byKey[k]
+				if len(fs) < 2 {
+					continue
 				}
+
+				sig := "equivocation-mimic-race"
+				if own != nil {
+					sig = "equivocation-own-vs-mimic"
+				}
+
+				// the first fact was on the network before a cleaner round started and the different one came after that: the node
+				// forgot a ballot it has to remember (two facts out of one phase keep the race signatures)
+				for _, tk := range ticks {
+					if first[k] < tk.from && second[k] >= tk.from {
+						sig = "equivocation-after-pool-clean"
+					}
+				}
+
+				r.Violation(rt, sig, "the local node broadcast %d different ballot facts for %s: %v\n  history:\n    %s\n  broadcast log: %v",
+					len(fs), k, bbSortedKeys(fs), strings.Join(history, "\n    "), sent)
 			}
 		}
 
-		r.Case(fmt.Sprintf("fault@%d;", failAt)+strings.Join(history, ";"), conflictInWindow, fmt.Sprintf("state:%s", state), fmt.Sprintf("conflictInWindow:%v", conflictInWindow),
+		nontrivial := conflictInWindow || conflictAcrossTick
+
+		r.Case(fmt.Sprintf("fault@%d;", failAt)+strings.Join(history, ";"), nontrivial, fmt.Sprintf("state:%s", state), fmt.Sprintf("conflictInWindow:%v", conflictInWindow),
+			fmt.Sprintf("conflictAcrossCleanerTick:%v", conflictAcrossTick), fmt.Sprintf("cleanerTicks:%d", ticksDone), fmt.Sprintf("cleanerRemovedSomething:%v", tickRemoved > 0),
 			fmt.Sprintf("poolFaultHit:%v", c.fpool.failed > 0))
 
-		if conflictInWindow && r.WantSample() {
+		if nontrivial && r.WantSample() {
 			c.mu.Lock()
 			r.Sample(map[string]any{"history": history, "broadcast_by_local": len(c.sent)})
 			c.mu.Unlock()
